@@ -35,7 +35,7 @@ def run(ctx):
     rnd = ctx.rnd
     ctx.rule = ("random CIDs of 1-5 fields drawn from 8 field declarations (Text, Integer, Choice, Constant, plugin) with 0-2 checks, "
                 "header 0-2, formats delimited and fixed; tables of 0-8 rows over per-field pools of accepted and rejected cells, ragged widths; "
-                "read in 'yield' mode; distinct = distinct (CID, table); non-trivial = table has at least one row")
+                "read in 'yield' mode (a quarter of the cases as the second pass of a Reader object whose first pass was abandoned); distinct = distinct (CID, table); non-trivial = table has at least one row")
     n = 1500 if ctx.tier == "quick" else 20000
     scns = []
     for _ in range(n):
@@ -43,6 +43,8 @@ def run(ctx):
         fields = engine.gen_fields(rnd, rnd.randint(1, 5), fmt)
         scn = {"format": fmt, "line": rnd.choice(["lf", "cr", "crlf", "any", "none"]), "allowed": None, "fields": fields, "checks": engine.gen_checks(rnd, fields), "header": rnd.choice([0, 0, 1, 2]),
                "runs": [{"kind": "R", "api": "c", "mode": "yield", "limit": None, "rows": engine.gen_table(rnd, fields, fmt, rnd.randint(0, 8), p_bad=0.15)}]}
+        if rnd.random() < 0.25:
+            scn["runs"][0]["pre"] = rnd.randint(1, 3)   # the Reader object already made a pass that was abandoned after some rows
         scns.append(scn)
     for scn, mruns, iruns in engine.run_scenarios(scns):
         case = {"scenario": engine.strip_scn(scn), "model": mruns if isinstance(mruns, str) else [dict(r) for r in mruns],
